@@ -17,7 +17,7 @@ LEVEL_NOTE = ("Trusted: mc/ref/ips.py (strict reader). The writer keeps no state
               "every interaction (order, adjacency, overlap). A block IPS cannot represent must raise; a first record at 0x454F46 "
               "may raise (refused) or be encoded differently, but must never be written as-is.")
 TECHNIQUE = "explicit-state enumeration of write histories on the real writer, output decided by an independent IPS reader"
-RULE = ("state = write history (sequence of (address, length) events, contents position-dependent); transition = one write_block "
+RULE = ("state = write history (sequence of (address, length) events, contents position-dependent; a repeated (address, length) is run both with new and with identical bytes); transition = one write_block "
         "call. Every history up to the depth bound is executed. non-trivial = history contains a split block (>65535), an empty "
         "block, adjacent/overlapping blocks, or a record at a format limit (>= 0xFF0000, negative, or 0x454F46).")
 ASSUMPTIONS = ["strict IPS reader mc/ref/ips.py", "image comparison applies writes in order, later wins"]
@@ -87,8 +87,9 @@ def classify(s0, ln):
     return "ok"
 
 
-def run_history(hist, header, viol):
-    """hist: list of (addr, length). Returns (nontrivial, outcome tag)."""
+def run_history(hist, header, viol, identical_repeats=False):
+    """hist: list of (addr, length). Returns (nontrivial, outcome tag).
+    identical_repeats: a write whose (address, length) equals an earlier write's carries the SAME bytes as that one."""
     from a816.writers import IPSWriter
     f = io.BytesIO()
     w = IPSWriter(f, header)
@@ -100,7 +101,10 @@ def run_history(hist, header, viol):
     pending_must = None
     b = base()
     for i, (addr, ln) in enumerate(hist):
-        data = b[i * 1021:i * 1021 + ln]
+        salt = i
+        if identical_repeats:
+            salt = next(j for j in range(i + 1) if hist[j] == (addr, ln))
+        data = b[salt * 1021:salt * 1021 + ln]
         cls = classify(addr + hdr, ln)
         attempted.append((addr + hdr, data))
         try:
@@ -203,8 +207,13 @@ def run_case(case):
     else:
         ev = events(ADDRS, LENGTHS) if case[4] == "thorough" else events(ADDRS_T, LENGTHS_T)
         hists = [[ev[case[2]], ev[case[3]], e] for e in ev]
+    runs = []
     for h in hists:
-        t, tag = run_history(h, header, viol)
+        runs.append((h, False))
+        if len(set(h)) < len(h) and any(ln for _, ln in h):
+            runs.append((h, True))  # same history, the repeated write restores exactly the earlier bytes
+    for h, ident in runs:
+        t, tag = run_history(h, header, viol, identical_repeats=ident)
         n += 1
         nt += t
         states += 1
